@@ -347,17 +347,22 @@ struct LongCase {
     /// non-message frames inserted after every k-th message (0 = none)
     dense_every: u32,
     early: Vec<Op>,
+    /// operations applied AFTER the bulk: the reads then find SOME of the frames they look for inside
+    /// their tail window and the rest far in front of it (a window holding at least one but fewer
+    /// than `limit` decisions, a cursor newer than the early ones, ...)
+    #[serde(default)]
+    late: Vec<Op>,
     fault: Option<Fault>,
     restart: bool,
     params: Params,
 }
 
-fn long_strategy() -> BoxedStrategy<LongCase> {
-    let early = proptest::collection::vec(
+fn long_ops(min: usize, max: usize, linked: u32) -> BoxedStrategy<Vec<Op>> {
+    proptest::collection::vec(
         rv::store::op_strategy(OpWeights {
             msg: 4,
             run: 3,
-            run_linked: 6,
+            run_linked: linked,
             cursor: 8,
             side_effects: 1,
             checkpoint: 2,
@@ -366,24 +371,32 @@ fn long_strategy() -> BoxedStrategy<LongCase> {
             restart: 0,
             ensure: 0,
         }),
-        4..24,
-    );
+        min..max,
+    )
+    .boxed()
+}
+
+fn long_strategy() -> BoxedStrategy<LongCase> {
+    let early = long_ops(4, 24, 6);
+    let late = prop_oneof![2 => Just(Vec::new()).boxed(), 3 => long_ops(1, 9, 14)];
     (
         prop_oneof![
-            3 => (10_010u32..10_400, 4u32..40, prop_oneof![Just(0u32), Just(0), 50u32..400]),   // > 10^4 frames
-            1 => (1_050u32..1_200, 7_800u32..8_400, Just(0u32)),                                 // > 8 MiB sidecar
+            2 => (10_010u32..10_400, 4u32..40, prop_oneof![Just(0u32), Just(0), 50u32..400]),   // > 10^4 frames
+            3 => (1_050u32..1_200, 7_800u32..8_400, Just(0u32)),                                 // > 8 MiB sidecar
             2 => (1_500u32..2_500, 150u32..300, prop_oneof![Just(0u32), 3u32..10]),              // > 256 KiB sidecar
         ],
         early,
+        late,
         proptest::option::weighted(0.5, fault::fault_strategy()),
         any::<bool>(),
         params_strategy(),
     )
-        .prop_map(|((bulk_messages, content_len, dense_every), early, fault, restart, params)| LongCase {
+        .prop_map(|((bulk_messages, content_len, dense_every), early, late, fault, restart, params)| LongCase {
             bulk_messages,
             content_len,
             dense_every,
             early,
+            late,
             fault,
             restart,
             params,
@@ -421,6 +434,10 @@ fn run_long(case: &LongCase, known: &KnownFindings) -> CaseReport {
             }
         }
     }
+    for op in &case.late {
+        let _ = rv::engine::runner::catch(|| it.apply(op));
+    }
+    rep.class_if(!case.late.is_empty(), "late_frames_inside_the_tail_window");
     // refresh interpreter's view of messages for anchors (resolve_cut reads truth itself)
     let sidecar_len = rv::store::file_len(&it.sandbox.streams_dir().join(format!("{tid}.jsonl")));
     rep.class_if(sidecar_len > 8 * 1024 * 1024, "sidecar>8MiB");
@@ -459,10 +476,10 @@ fn main() {
     check.group("single_fault", rule, GroupOpts { cases: n, ..Default::default() }, || case_strategy(true), |c| run(c, &known));
     let n = check.cases(1200, 24_000);
     check.group("multi_fault", "same with 2-4 faults on any subset of the cache files", GroupOpts { cases: n, ..Default::default() }, || case_strategy(false), |c| run(c, &known));
-    let n = check.cases(20, 300);
+    let n = check.cases(40, 400);
     check.group(
         "long",
-        "threads longer than every bounded tail window (>10^4 frames, sidecars >256 KiB and >8 MiB, dense non-message frames) with the frames the reads look for placed early; optional cache fault and restart; non-trivial = frames>10^4 or sidecar>256KiB",
+        "threads longer than every bounded tail window (>10^4 frames, sidecars >256 KiB and >8 MiB, dense non-message frames) with the frames the reads look for placed early and, in 60 % of the cases, a few more of them after the bulk (inside the tail window); optional cache fault and restart; non-trivial = frames>10^4 or sidecar>256KiB",
         GroupOpts { cases: n, watchdog_s: 900, max_shrink_iters: 40, ..Default::default() },
         long_strategy,
         |c| run_long(c, &known),
